@@ -704,16 +704,31 @@ func trimParens(s string) string { return strings.TrimSpace(s) }
 // byte-order helpers of encoding/binary and the float bit casts of package math: no heap effect beyond the
 // destination slice; a too-short slice panics (safe.index obligation).
 func (vc *VC) declUint(width int) {
-	args := strings.TrimSpace(strings.Repeat("Int ", width))
+	args := strings.TrimSpace(strings.Repeat("Int ", width+1)) // byte order tag, then the bytes
 	vc.decl(fmt.Sprintf("bo.u%d", width*8), fmt.Sprintf("(declare-fun bo.u%d (%s) Int)", width*8, args))
+}
+
+// byteOrderTag: which ByteOrder a UintN / PutUintN call goes through — the dynamic type of the interface value, or the
+// receiver type of a static call (binary.LittleEndian / binary.BigEndian are values of two distinct types).
+func (fr *frame) byteOrderTag(c *ssa.CallCommon) string {
+	vc := fr.vc
+	vc.decl("itag", "(declare-fun itag (Int) Int)")
+	if c.IsInvoke() {
+		return fmt.Sprintf("(itag %s)", fr.val(c.Value).S)
+	}
+	if callee := c.StaticCallee(); callee != nil && callee.Signature.Recv() != nil {
+		return vc.typeTag(callee.Signature.Recv().Type())
+	}
+	return "0"
 }
 
 func byteOrderRead(width int) stdSpec {
 	return func(fr *frame, c *ssa.CallCommon, args []T, st *state, pos string) []T {
 		vc := fr.vc
+		order := fr.byteOrderTag(c)
 		b := args[len(args)-1]
 		fr.obligeHere("safe.index", "", st, fmt.Sprintf("(>= (s_len %s) %d)", b.S, width), pos)
-		vc.assumedStd["encoding/binary ByteOrder.UintN(b) / PutUintN(b, v): UintN returns bo.uN(b[0..N/8)) in [0, 2^N), an uninterpreted function of the bytes; PutUintN writes exactly b[:N/8] such that bo.uN of them is v; byte order itself is abstracted (one function for both orders); both panic when len(b) < N/8"] = true
+		vc.assumedStd["encoding/binary ByteOrder.UintN(b) / PutUintN(b, v): UintN returns bo.uN(b[0..N/8)) in [0, 2^N), an uninterpreted function of the byte order (the dynamic type of the ByteOrder value) and the bytes; PutUintN writes exactly b[:N/8] such that bo.uN(order, bytes) is v; both panic when len(b) < N/8"] = true
 		vc.declUint(width)
 		h := vc.heapGet(st, vc.heapArr("Int"))
 		var bs []string
@@ -721,9 +736,13 @@ func byteOrderRead(width int) stdSpec {
 			bs = append(bs, vc.at("Int", h, b.S, fmt.Sprintf("%d", j)))
 		}
 		rt := c.Signature().Results().At(0).Type()
-		v := T{fmt.Sprintf("(bo.u%d %s)", width*8, strings.Join(bs, " ")), "Int", rt}
 		r := fr.freshOf("bo_v", rt, st)
-		vc.assume(st.reach, fmt.Sprintf("(= %s %s)", r.S, v.S))
+		if vc.decodeBytes {
+			// the unit's contract talks about decoded integers (u16/u32/u64 or a helper built on them): tie the
+			// result to the bytes; otherwise it stays "some value in range" and the query stays small
+			v := T{fmt.Sprintf("(bo.u%d %s %s)", width*8, order, strings.Join(bs, " ")), "Int", rt}
+			vc.assume(st.reach, fmt.Sprintf("(= %s %s)", r.S, v.S))
+		}
 		return []T{r}
 	}
 }
@@ -731,10 +750,11 @@ func byteOrderRead(width int) stdSpec {
 func byteOrderPut(width int) stdSpec {
 	return func(fr *frame, c *ssa.CallCommon, args []T, st *state, pos string) []T {
 		vc := fr.vc
+		order := fr.byteOrderTag(c)
 		b := args[len(args)-2]
 		v := args[len(args)-1]
 		fr.obligeHere("safe.index", "", st, fmt.Sprintf("(>= (s_len %s) %d)", b.S, width), pos)
-		vc.assumedStd["encoding/binary ByteOrder.UintN(b) / PutUintN(b, v): UintN returns bo.uN(b[0..N/8)) in [0, 2^N), an uninterpreted function of the bytes; PutUintN writes exactly b[:N/8] such that bo.uN of them is v; byte order itself is abstracted (one function for both orders); both panic when len(b) < N/8"] = true
+		vc.assumedStd["encoding/binary ByteOrder.UintN(b) / PutUintN(b, v): UintN returns bo.uN(b[0..N/8)) in [0, 2^N), an uninterpreted function of the byte order (the dynamic type of the ByteOrder value) and the bytes; PutUintN writes exactly b[:N/8] such that bo.uN(order, bytes) is v; both panic when len(b) < N/8"] = true
 		vc.declUint(width)
 		bs := vc.nameConst("bo_b", "Slice", b.S)
 		fr.frameCheck("frame.store", fmt.Sprintf("(s_arr %s)", bs), st, pos, fmt.Sprintf("(= (s_cap %s) 0)", bs))
@@ -749,7 +769,7 @@ func byteOrderPut(width int) stdSpec {
 			outs = append(outs, e)
 			vc.assume(st.reach, fmt.Sprintf("(and (<= 0 %s) (<= %s 255))", e, e))
 		}
-		vc.assume(st.reach, fmt.Sprintf("(= (bo.u%d %s) %s)", width*8, strings.Join(outs, " "), v.S))
+		vc.assume(st.reach, fmt.Sprintf("(= (bo.u%d %s %s) %s)", width*8, order, strings.Join(outs, " "), v.S))
 		an := vc.at("Int", newH, "s", "j")
 		ao := vc.at("Int", oldH, "s", "j")
 		vc.emit(fmt.Sprintf("(assert (forall ((s Slice) (j Int)) (! (=> (and (= (s_arr s) (s_arr %s)) (or (< (+ (s_off s) j) (s_off %s)) (>= (+ (s_off s) j) (+ (s_off %s) %d)))) (= %s %s)) :pattern (%s))))",
